@@ -11,6 +11,7 @@
 -/
 import GraphiqModel.Proofs.DMSem
 import GraphiqModel.Proofs.C17Bridge
+import GraphiqModel.Proofs.C17BridgeUhlmann
 namespace Graphiq.C17
 open Graphiq Graphiq.DM
 
@@ -109,6 +110,17 @@ theorem commuting_trace_distance_is_metric {p q r : ι → ℝ} (hp : IsProb p) 
 /-- **Fuchs – van de Graaf** for commuting pairs: `1 − √F ≤ T ≤ √(1 − F)` -/
 theorem commuting_fuchs_van_de_graaf {p q : ι → ℝ} (hp : IsProb p) (hq : IsProb q) :
     1 - Real.sqrt (F p q) ≤ T p q ∧ T p q ≤ Real.sqrt (1 - F p q) := fuchs_van_de_graaf hp hq
+
+/-- **The closed forms *are* the Uhlmann fidelity and the trace distance on commuting pairs** (any dimension): for
+    `ρ = U diag(p) U†`, `σ = U diag(q) U†` with `U` unitary and `p, q ≥ 0`, the Uhlmann fidelity `(tr √(√ρ σ √ρ))²` and the
+    trace distance `½ tr √((ρ−σ)†(ρ−σ))` — `√` the positive semidefinite square root of Mathlib (`CFC.sqrt`) — equal
+    `F p q = (Σ √(p_i q_i))²` and `T p q = ½ Σ |p_i − q_i|`.  (Formerly cited as textbook mathematics.)  Together with the
+    three theorems above: on commuting pairs fidelity and trace distance have every property asked of them. -/
+theorem commuting_closed_forms_are_uhlmann_and_trace_distance [DecidableEq ι] (U : Matrix ι ι ℂ)
+    (hU : U.conjTranspose * U = 1) (p q : ι → ℝ) (hp : ∀ i, 0 ≤ p i) (hq : ∀ i, 0 ≤ q i) :
+    C17B.uhlmann (C17B.conjDiag U p) (C17B.conjDiag U q) = ((F p q : ℝ) : ℂ) ∧
+    C17B.traceDist (C17B.conjDiag U p) (C17B.conjDiag U q) = ((T p q : ℝ) : ℂ) :=
+  ⟨C17B.uhlmann_commuting U hU p q hp hq, C17B.traceDist_commuting U hU p q⟩
 
 /-- the rational numbers the driver computes for a commuting pair (`dm.comm`) are these real quantities:
     eigenvalues `a_i²`, `b_i²` with `a_i, b_i ≥ 0` rational -/
